@@ -6621,12 +6621,15 @@ tsk_tree_clear(tsk_tree_t *self)
 {
     int ret = 0;
     tsk_size_t j;
-    tsk_id_t u;
+    tsk_id_t u, v;
     const tsk_size_t N = self->num_nodes + 1;
     const tsk_size_t num_samples = self->tree_sequence->num_samples;
     const bool sample_counts = !(self->options & TSK_NO_SAMPLE_COUNTS);
     const bool sample_lists = !!(self->options & TSK_SAMPLE_LISTS);
     const tsk_flags_t *flags = self->tree_sequence->tables->nodes.flags;
+
+    /* Zero for a new tree (its link arrays are not initialised yet) */
+    const tsk_size_t num_edges = self->num_edges;
 
     self->interval.left = 0;
     self->interval.right = 0;
@@ -6636,6 +6639,24 @@ tsk_tree_clear(tsk_tree_t *self)
     self->sites = NULL;
     self->sites_length = 0;
     tsk_tree_position_set_null(&self->tree_pos);
+    if (sample_counts && num_edges > 0) {
+        /* A sample node that has children in the current tree carries their
+         * tracked samples in its count as well. Reduce every sample node to its
+         * own contribution while the child links still exist, using num_samples
+         * (reset below) as scratch space so that the result does not depend on
+         * the order in which the samples are visited. */
+        for (j = 0; j < num_samples; j++) {
+            u = self->samples[j];
+            self->num_samples[u] = self->num_tracked_samples[u];
+            for (v = self->left_child[u]; v != TSK_NULL; v = self->right_sib[v]) {
+                self->num_samples[u] -= self->num_tracked_samples[v];
+            }
+        }
+        for (j = 0; j < num_samples; j++) {
+            u = self->samples[j];
+            self->num_tracked_samples[u] = self->num_samples[u];
+        }
+    }
     /* TODO we should profile this method to see if just doing a single loop over
      * the nodes would be more efficient than multiple memsets.
      */
